@@ -21,7 +21,7 @@ from fractions import Fraction as Fr
 import numpy as np
 from hypothesis import strategies as st
 
-from ..core import Given, Ctx, Violation, jsonable
+from ..core import Given, Ctx, Violation, jsonable, deep
 from ..findings import is_open
 
 from raysect.core.math.random import seed as rs_seed
@@ -567,8 +567,9 @@ def sampling_strategy():
 
 @st.composite
 def grid_strategy(draw):
-    nr = draw(st.integers(1, 12))
-    nz = draw(st.integers(1, 12 // nr))
+    ntot = deep(12, 48)                      # voxels per grid
+    nr = draw(st.one_of(st.integers(1, 12), st.integers(1, ntot)))
+    nz = draw(st.integers(1, max(1, ntot // nr)))
     s = draw(SCALE)
     g, h = _offsets(SAMPLING_GMAX)
     r0 = draw(g) * s
